@@ -388,7 +388,7 @@ pub fn run(args: &Args) {
                     sum.violation(ImplViolation { key: "val-str".into(), input: format!("VAL(STR$({}))", k), expected: format!("STR$ = {:?}, VAL = {}", exp_s, k), observed: line.to_string() });
                 }
                 // the model on the string the implementation produced
-                let tag = if (-32768..=32767).contains(k) { 0 } else { 1 };
+                let tag = 2; // VAL returns a DOUBLE
                 w.push(Case {
                     agree: format!("str_eqb (str_fn {k}) {s} && val_eqb (val_fn {s}) {tag} {v}", k = z(*k as i128), s = bytes(s.as_bytes()), tag = tag, v = z(v as i128)),
                     desc: format!("STR$({}) = {:?}, VAL = {}", k, s, v),
